@@ -51,8 +51,9 @@ def check_filters(prop, tier, replay):
     for mode, eq in MODES[prop]:
         out = os.path.join(sc, "filters-%s.ndjson" % mode)
         args = ["filters", "-mode", mode, "-tier", tier, "-seed", str(vlib.seed()), "-out", out] + ([] if eq else ["-noeq"])
-        if eq and tier == "quick":
-            args += ["-eqlimit", "8000"]      # all leaves, all depth-2 terms and the first nested ones pairwise
+        if eq:
+            # all leaves, all depth-2 terms and the first nested ones pairwise (64 M ordered pairs quick, 400 M thorough)
+            args += ["-eqlimit", "8000" if tier == "quick" else "20000"]
         rc, so, se = vlib.run_harness(args, timeout=1200)
         if rc != 0:
             # a filter that panics on an object of the universe: the operation cannot be localised cheaply, report it
